@@ -104,6 +104,9 @@ func (r *mReader) Close() error               { r.closed = true; return nil }
 func (s *mSink) Write(p []byte) (int, error) { return len(p), nil }
 func (s *mSink) ID() string                  { return s.meta.ID }
 func (s *mSink) Close() error {
+	if s.closed {
+		return nil // idempotent: takeSnapshot closes again after FSMSnapshot.Persist closed it
+	}
 	if s.store.failOn && vFail("sink.Close") {
 		s.store.calls = append(s.store.calls, mCall{opSnapClose, s.meta.Index, s.meta.Term, false})
 		return errInjected
@@ -119,4 +122,36 @@ func (s *mSink) Cancel() error {
 	s.canceled = true
 	s.store.calls = append(s.store.calls, mCall{opSnapCancel, s.meta.Index, s.meta.Term, true})
 	return nil
+}
+
+// mFSMSnapshot is what mSnapFSM.Snapshot returns: Persist finishes the sink
+// (Close on success, Cancel on failure), as the FSMSnapshot contract says.
+type mFSMSnapshot struct {
+	released bool
+	fail     bool
+}
+
+func (s *mFSMSnapshot) Persist(sink SnapshotSink) error {
+	if s.fail {
+		_ = sink.Cancel()
+		return errInjected
+	}
+	return sink.Close()
+}
+func (s *mFSMSnapshot) Release() { s.released = true }
+
+type mSnapFSM struct {
+	mFSM
+	snapFail, persistFail bool
+	snaps                 []*mFSMSnapshot
+}
+
+func (f *mSnapFSM) Snapshot() (FSMSnapshot, error) {
+	f.calls = append(f.calls, mFSMCall{op: opFSMSnapshot})
+	if f.snapFail {
+		return nil, errInjected
+	}
+	s := &mFSMSnapshot{fail: f.persistFail}
+	f.snaps = append(f.snaps, s)
+	return s, nil
 }
